@@ -764,3 +764,79 @@ func famGetSocial(g *sgen, i int) J {
 }
 
 func init() { families["getsocial"] = famGetSocial }
+
+// C16: client Update / Delete / Add / Remove / Like / Block against a store with varied objects
+func famClient(g *sgen, i int) J {
+	ty := []string{"Update", "Update", "Delete", "Add", "Remove", "Like", "Block", "Update"}[i%8]
+	w := g.baseWorld()
+	w["socialCallbacks"] = g.cbConfig([]string{ty, "Create"})
+	if g.r.chance(70) {
+		w["socialCallbacks"] = J{"wrapped": asList([]interface{}{ty}), "other": []interface{}{}, "onFollow": 0.0}
+	}
+	store := jmap(w["store"])
+	members := []string{"content", "summary", "name", "published", "updated", "attributedTo", "mediaType"}
+	vals := map[string]interface{}{"content": "c", "summary": "s", "name": "n", "published": "2019-01-02T03:04:05Z", "updated": "2019-02-03T04:05:06Z", "attributedTo": alice, "mediaType": "text/plain"}
+	for _, id := range []string{local("/notes/1"), local("/notes/2")} {
+		doc := J{"type": g.r.pick([]string{"Note", "Article", "Note"}), "id": id}
+		for _, m := range members {
+			if g.r.chance(55) {
+				doc[m] = vals[m]
+			}
+		}
+		store[id] = doc
+	}
+	a := J{"type": ty, "actor": alice}
+	n := 1 + g.r.intn(3)
+	var objs []interface{}
+	switch ty {
+	case "Update":
+		for k := 0; k < n; k++ {
+			o := J{"type": "Note", "id": g.r.pick([]string{local("/notes/1"), local("/notes/2")})}
+			for _, m := range members {
+				switch g.r.intn(5) {
+				case 0:
+					o[m] = fmt.Sprint(vals[m]) + "-new"
+					if m == "published" || m == "updated" {
+						o[m] = "2021-03-04T05:06:07Z"
+					}
+					if m == "attributedTo" {
+						o[m] = dave
+					}
+				case 1:
+					o[m] = nil // partial update: remove this member
+				}
+			}
+			objs = append(objs, o)
+		}
+		if g.r.chance(20) {
+			a["summary"] = nil // a null at the activity's top level must not touch the objects
+		}
+	case "Delete":
+		for k := 0; k < n; k++ {
+			objs = append(objs, g.ref(g.r.pick([]string{local("/notes/1"), local("/notes/2")}), "Note", g.r.chance(30)))
+		}
+	case "Add", "Remove":
+		for k := 0; k < n; k++ {
+			objs = append(objs, g.ref(g.r.pick([]string{bob, carol, dave, remote("/notes/8")}), "Note", g.r.chance(30)))
+		}
+		var ts []interface{}
+		for k, m := 0, 1+g.r.intn(3); k < m; k++ {
+			ts = append(ts, g.ref(g.r.pick([]string{local("/col/1"), local("/col/2"), local("/ocol/1"), remote("/col/r"), local("/col/1")}), "Collection", g.r.chance(20)))
+		}
+		a["target"] = asList(ts)
+	default:
+		for k := 0; k < n; k++ {
+			objs = append(objs, g.ref(g.r.pick([]string{remote("/notes/8"), remote("/notes/9"), local("/notes/1"), bob}), "Note", g.r.chance(30)))
+		}
+	}
+	a["object"] = asList(objs)
+	g.address(a, []string{bob, carol, dave, remote("/col/r"), publicIRI}, 30)
+	if g.r.chance(35) {
+		st := J{"entry": "send", "host": hostA, "path": "/users/alice/outbox", "value": a}
+		return J{"label": "client-send-" + ty, "cfg": J{"kind": "both"}, "world": w, "steps": []interface{}{st}}
+	}
+	return J{"label": "client-post-" + ty, "cfg": J{"kind": g.r.pick([]string{"both", "both", "social"})}, "world": w,
+		"steps": []interface{}{step("postOutbox", "POST", g.header(true), "/users/alice/outbox", a)}}
+}
+
+func init() { families["client"] = famClient }
